@@ -237,16 +237,8 @@ def _run_own(ck):
         ok = len(tt) == 2 and len(se) == 1 and sorted(hir.local_name(c['recv']) for c in tt) == sorted(ps)
         ck.ob('R-PATH', 'scalar_compare', ok, ck.site(sk['scalar_compare']), 'scalar_compare must apply scalar_eq to the tensors of its two different arguments')
     # D1b: both evaluators turn phases into exact numbers through From<Phase> for Scalar4 (same table as C07-D5)
-    from .C07 import from_phase_table, PHASE_REF
-    fpk = '<scalar::Scalar4 as std::convert::From<phase::Phase>>::from'
-    fp = from_phase_table(ck.fn(fpk))
-    if fp is None:
-        ck.violation('R-TABLE-scalar', 'from-phase/shape', ck.site(fpk), 'anchor-missing')
-    else:
-        guard, formula, tbl = fp
-        ck.ob('R-TABLE-scalar', 'from-phase/guard', guard == ('divides', 4), ck.site(fpk), 'a phase is exactly representable as a power of omega exactly when its denominator divides 4 (`4 %% denom == 0`); found %s — other phases must take the floating-point branch' % (guard,))
-        ck.ob('R-TABLE-scalar', 'from-phase/position', formula is not None, ck.site(fpk), 'the unit position must be numer*(4/denom) mod 8')
-        ck.ob('R-TABLE-scalar', 'from-phase/table', all(tbl.get(p) == PHASE_REF[p] for p in range(8)), ck.site(fpk), 'e^(i pi k/4) table is %s' % tbl)
+    # (round 2: From<Phase> for Scalar4 is decided by value in the dependency clause C07 — E3-scalar4/from-phase and from-phase-inexact; the
+    # syntactic table reading that used to be repeated here alarmed on a behaviour-preserving rewrite and is gone)
     # positive control
     fx = fixture()
     t2 = gatesem.tensor_table(fx, 'tensor::to_tensor')
